@@ -93,6 +93,8 @@ static void sim_common_op(const sim_xop *x SC_DECL__)
 		memset(tmp, 0x5a, (size_t) x->len + 1);
 		free(tmp);
 		sim_buf_created(b, -1, NULL, 1);
+		if (b)
+			sim_buf_memlen((int) x->len);
 		break;
 	}
 	case SOP_SCAN_STRING: {
@@ -104,6 +106,8 @@ static void sim_common_op(const sim_xop *x SC_DECL__)
 		memset(tmp, 0x5a, (size_t) x->len + 1);
 		free(tmp);
 		sim_buf_created(b, -1, NULL, 1);
+		if (b)
+			sim_buf_memlen((int) x->len);
 		break;
 	}
 	case SOP_SCAN_BUFFER: {
